@@ -238,7 +238,176 @@ func init() {
 			}
 		}
 	}
-	gens["C08"] = mk("lww", 250, 4000)
+	gens["C08"] = mk("lww", 160, 4000)
 	gens["C11"] = mk("range", 250, 4000)
 	gens["C12"] = mk("limit", 250, 4000)
+}
+
+// ---- variable-length buckets (C09; variable halves of C11/C12) ------------------------------
+
+func (g *Gen) varScenario(focus string) (string, []string) {
+	tfi := 3 + g.Intn(len(catalogTFs)-3)
+	if g.Intn(6) == 0 {
+		tfi = g.Intn(3)
+	}
+	if catalogTFs[tfi].name == "4H" { // not queryable (C08-F27): covered by the fixed-length scenarios
+		tfi = 3
+	}
+	tf := catalogTFs[tfi]
+	sc := g.schema()
+	nowYear := time.Now().UTC().Year()
+	key := fmt.Sprintf("V%d/%s/TICK", g.Intn(3), tf.name)
+	tags := []string{"var", "tf:" + tf.name, "focus:" + focus}
+	steps := []string{fmt.Sprint(nowYear)}
+	if g.Intn(4) != 0 {
+		steps = append(steps, fmt.Sprintf("C:%s:v:%s", key, sc.cols))
+	} else {
+		tags = append(tags, "autocreate")
+	}
+	tfS := tf.ns / 1e9
+	// a few intervals over one or two years
+	years := []int{2020}
+	if g.Intn(3) == 0 {
+		years = append(years, 2021)
+	}
+	var bases []int64
+	for i := 0; i < 1+g.Intn(4); i++ {
+		y := years[g.Intn(len(years))]
+		ys := time.Date(y, 1, 1, 0, 0, 0, 0, time.UTC).Unix()
+		ye := time.Date(y+1, 1, 1, 0, 0, 0, 0, time.UTC).Unix()
+		var b int64
+		switch g.Intn(4) {
+		case 0:
+			b = ys
+		case 1:
+			b = ye - tfS
+		default:
+			b = ys + tfS*int64(g.Intn(int((ye-ys)/tfS)))
+		}
+		if tf.name == "1D" && b == ys { // January 1 in a 1D bucket: C08-F1
+			b += tfS
+		}
+		bases = append(bases, b)
+	}
+	nanosPick := func() int64 {
+		switch g.Intn(6) {
+		case 0:
+			return 0
+		case 1:
+			return 999999999 - int64(g.Intn(8))
+		case 2:
+			return int64(g.Intn(20))
+		case 3:
+			return int64(g.Intn(1000)) * 1000000
+		}
+		return int64(g.Intn(1e9))
+	}
+	constPayload := g.Bytes(sc.size)
+	type wr struct{ sec, ns int64 }
+	var all []wr
+	nreq := 1 + g.Intn(4)
+	qAll := fmt.Sprintf("Q:%s:-:-:-:-:-:-:-", key)
+	big := focus == "order" && g.Intn(25) == 0
+	for r := 0; r < nreq; r++ {
+		n := 1 + g.Intn(12)
+		if big && r == 0 {
+			n = g.N(3000, 25000) // very compressible: many identical records in one interval
+			tags = append(tags, "compressible_many")
+		}
+		var parts []string
+		for i := 0; i < n; i++ {
+			b := bases[g.Intn(len(bases))]
+			if big && r == 0 {
+				b = bases[0]
+			}
+			sec := b + int64(g.Intn(int(tfS)))
+			ns := nanosPick()
+			if len(all) > 0 && g.Intn(6) == 0 { // exact duplicate timestamp
+				p := all[g.Intn(len(all))]
+				sec, ns = p.sec, p.ns
+				tags = append(tags, "dup_time")
+			}
+			pay := g.Bytes(sc.size)
+			if (big && r == 0) || g.Intn(5) == 0 {
+				pay = constPayload
+			}
+			all = append(all, wr{sec, ns})
+			parts = append(parts, fmt.Sprintf("%d,%d,%s", sec, ns, hx(pay)))
+		}
+		steps = append(steps, fmt.Sprintf("W:%s:v:%s:%s", key, sc.cols, strings.Join(parts, "+")))
+		if focus == "order" && g.Intn(2) == 0 {
+			steps = append(steps, qAll)
+		}
+	}
+	steps = append(steps, qAll)
+	nq := 0
+	if focus != "order" {
+		nq = 3 + g.Intn(4)
+	}
+	for i := 0; i < nq; i++ {
+		ss, sn, es, en, lim, dir, cols := "-", "-", "-", "-", "-", "-", "-"
+		pick := func() (int64, int64) {
+			p := all[g.Intn(len(all))]
+			switch g.Intn(6) {
+			case 0:
+				return p.sec, p.ns
+			case 1:
+				return p.sec, p.ns + 1
+			case 2:
+				if p.ns > 0 {
+					return p.sec, p.ns - 1
+				}
+				return p.sec - 1, 999999999
+			case 3:
+				return p.sec - p.sec%tfS, 0
+			case 4:
+				return p.sec - p.sec%tfS + tfS, 0
+			}
+			return p.sec + int64(g.Intn(int(2*tfS+1))) - tfS, int64(g.Intn(1e9))
+		}
+		if focus == "range" || g.Intn(2) == 0 {
+			if g.Intn(5) != 0 {
+				a, b := pick()
+				ss, sn = fmt.Sprint(a), fmt.Sprint(b)
+			}
+			if g.Intn(5) != 0 {
+				a, b := pick()
+				es, en = fmt.Sprint(a), fmt.Sprint(b)
+			}
+			tags = append(tags, "q:range")
+		}
+		if focus == "limit" || g.Intn(3) == 0 {
+			lim = fmt.Sprint(1 + g.Intn(len(all)+2))
+			dir = []string{"F", "L"}[g.Intn(2)]
+			tags = append(tags, "q:limit"+dir)
+		}
+		steps = append(steps, fmt.Sprintf("Q:%s:%s:%s:%s:%s:%s:%s:%s", key, ss, sn, es, en, lim, dir, cols))
+	}
+	return "store " + strings.Join(steps, " "), tags
+}
+
+func init() {
+	gens["C09"] = func(g *Gen) {
+		n := g.N(150, 4000)
+		for i := 0; i < n; i++ {
+			line, tags := g.varScenario("order")
+			g.Emit(line, tags...)
+		}
+	}
+	mix := func(focus string, quick, thorough int) func(g *Gen) {
+		return func(g *Gen) {
+			n := g.N(quick, thorough)
+			for i := 0; i < n; i++ {
+				if i%3 == 2 {
+					line, tags := g.varScenario(focus)
+					g.Emit(line, tags...)
+				} else {
+					line, tags := g.storeScenario(focus)
+					g.Emit(line, tags...)
+				}
+			}
+		}
+	}
+	gens["C11"] = mix("range", 180, 4500)
+	gens["C12"] = mix("limit", 180, 4500)
 }
